@@ -28,6 +28,26 @@ CHECKS = {
              "completely; operand positions and targets are sampled.",
         note="Trusted: vf/ref/pdp11.py decoder; the accept rule 'even and -256..254 / -126..0 from .+2'.",
         design="4/C04"),
+    "C05": dict(
+        category="exploration",
+        technique="Hypothesis recursive expression trees + exhaustive operator-pair enumeration, differential against an independent big-integer evaluator",
+        text="Expression trees up to depth 6 over all operators are rendered with only the grouping C precedence and left associativity "
+             "demand (so pdpy11's own precedence table decides the value), with drawn literal spellings, grouping styles, symbolic and "
+             "address-valued leaves, and the emitted .dword/.word/immediate/index words are compared with an independent evaluator; "
+             "planted /0, %0, negative shift counts, 8/9 digit strings and |v| >= 2^32 must be refused. All 144 ordered operator pairs "
+             "are additionally enumerated over a fixed operand set. Sampling, not proof: evidence reports the operator-pair matrix reached.",
+        note="Trusted: vf/ref/expr.py, vf/render.py (minimal-grouping renderer).",
+        design="4/C05"),
+    "C06": dict(
+        category="exploration",
+        technique="Hypothesis directive programs + enumeration of every escape/boundary/alignment form against the directive rules and Python's codecs",
+        text="Programs of 1-5 data directives at a steered address residue are compared byte for byte with the property's own rules "
+             "(value mod 2^n, word order, codec bytes, exact zero fill) and the must-fail set is asserted in both directions; 70% of "
+             "programs are clean, 30% carry one planted refusal so that a single identifier is checked. Deterministic parts enumerate "
+             "every escape x charset x quote, every <n> in -2..257, every boundary value, every count boundary, word data at every "
+             "parity with 0-3 operands, and .even/.odd/.align m for every m in 1..64 at every residue.",
+        note="Trusted: Python codecs for utf-8/koi8-r/latin-1/cp866; for bk only ASCII, U+0080-9F and KOI8 letters (rest is C14).",
+        design="4/C06"),
     "C14": dict(
         category="exploration",
         technique="exhaustive enumeration (256 bytes, 0x110000 code points) + Hypothesis strings against Python's koi8-r/ASCII and the round-trip law",
